@@ -121,7 +121,7 @@ pub fn run(ctx: &Ctx) -> i32 {
     // structural giants (sequential: each is large)
     let mut gctx = ctx.clone();
     gctx.threads = 3;
-    let giants = run_cases(&gctx, 3, |k| {
+    let giants = run_stage(&gctx, "giants", 3, |k| {
         let (sp, name) = giant(k);
         let mut rng = Rng::derive(ctx.seed, "C01-giant", k);
         let mut o = ObsOpts::no_images();
